@@ -61,6 +61,10 @@ structure EnumDef where
   repr : Option ReprTy := none
   constIntoStr : Bool := false
   variants : List Variant := []
+  /-- `#[strum_discriminants(name(..))]` -/
+  discName : Option Bytes := none
+  /-- `#[strum_discriminants(vis(..))]`: 0 = not given, 1 = `pub`, 2 = anything else -/
+  discVis : Nat := 0
   deriving Repr
 
 /-- effective case-insensitivity of a variant: `variant.unwrap_or(enum)` (from_string.rs:116-118) -/
